@@ -451,6 +451,40 @@ def tidy (main0 : Mod) (reg : Reg) (fuel : Nat) : Except Err (List Dep) :=
       | none => .error .graph
       | some _ => .ok (depsOf roots rs.dflts)
 
+/-! ### the repair of finding `two-majors-no-default`
+(notes/patches/C17-two-majors-no-default.diff: `keepImpliedDefaults` in tidyOnce).  Not part of
+`tidy`, which describes the unchanged tree; `Driver/C17.lean` answers with `tidyFixed` once
+the repair is committed (`fixedTwoMajors := true`). -/
+
+/-- the default-major-version map after tidyRoots: every base path for which an import without
+a major version was resolved through the implied default "the only major among the roots"
+(`.nonexplicit`) and which has several majors among the tidy roots gets that major as an
+explicit default -/
+def keepImpliedDefaults (rs : Reqs) (pkgs : List (Imp × PkgRes)) : List (Path × Nat) :=
+  let troots := tidyRoots pkgs
+  pkgs.foldl (fun d p =>
+    match p.1.major, p.2 with
+    | none, .ok (.ext mp _) _ _ =>
+      match rs.defaultMajor mp.base with
+      | .nonexplicit m =>
+        if (Reqs.defaultMajor { roots := troots, dflts := d } mp.base) = .ambiguous then setDflt d mp.base m
+        else d
+      | _ => d
+    | _, _ => d) rs.dflts
+
+def tidyFixed (main0 : Mod) (reg : Reg) (fuel : Nat) : Except Err (List Dep) :=
+  if !wfMain main0 then .error .other else
+  let main := normMod main0
+  match resolveLoop main reg fuel fuel (initReqs main) with
+  | .error e => .error e
+  | .ok (rs, pkgs) =>
+    if pkgs.any (fun p => p.2.isErr) then .error .other
+    else
+      let roots := tidyRoots pkgs
+      match graphSel reg roots with
+      | none => .error .graph
+      | some _ => .ok (depsOf roots (keepImpliedDefaults rs pkgs))
+
 inductive Verdict
   | ok | nottidy | error
 deriving DecidableEq, Repr
